@@ -407,18 +407,22 @@ func (dht *FullRT) runCrawler(ctx context.Context) {
 			newRt.Add(kadKey)
 		}
 
+		verifPoint("swap:begin")
 		dht.peerAddrsLk.Lock()
 		dht.peerAddrs = peerAddrs
 		dht.peerAddrsLk.Unlock()
+		verifPoint("swap:addrs")
 
 		dht.kMapLk.Lock()
 		dht.keyToPeerMap = kPeerMap
 		dht.kMapLk.Unlock()
+		verifPoint("swap:kmap")
 
 		dht.rtLk.Lock()
 		dht.rt = newRt
 		dht.lastCrawlTime = time.Now()
 		dht.rtLk.Unlock()
+		verifPoint("swap:end")
 	}
 }
 
@@ -528,8 +532,10 @@ func (dht *FullRT) GetClosestPeers(ctx context.Context, key string) ([]peer.ID, 
 	// resulting in keys missing in maps.
 	dht.rtLk.RLock()
 	defer dht.rtLk.RUnlock()
+	verifPoint("closest:rt")
 	dht.kMapLk.RLock()
 	defer dht.kMapLk.RUnlock()
+	verifPoint("closest:kmap")
 	dht.peerAddrsLk.RLock()
 	defer dht.peerAddrsLk.RUnlock()
 
